@@ -390,22 +390,28 @@ impl StringDecoder for Utf8LengthPrefixedDecoder {
             .first()
             .ok_or_else(|| PacketBad.context("Length of string not found"))?;
 
-        // Find the position of the delimiter in the data. If the delimiter is not
-        // found, the length is returned.
-        let position = data
-        // Create an iterator over the data.
+        // The declared end of the string (length byte included)
+        let end = length as usize + 1;
+
+        // The bytes of the string; fails if the packet is shorter than declared
+        let bytes = data
+            .get(1 .. end)
+            .ok_or_else(|| PacketUnderflow.context("String is shorter than its declared length"))?;
+
+        // Find the position of the delimiter in the string. If the delimiter is not
+        // found inside the declared length, the whole string is used.
+        let position = bytes
+        // Create an iterator over the string bytes.
             .iter()
-            .skip(1)
-            .take(length as usize)
             // Find the position of the delimiter
             .position(|&b| b == delimiter.as_ref()[0])
-            // If the delimiter is not found, use the whole data slice.
-            .unwrap_or(length as usize);
+            // If the delimiter is not found, use the whole declared string.
+            .unwrap_or(bytes.len());
 
         // Convert the data until the found position into a UTF-8 string.
         let result = std::str::from_utf8(
-            // Take a slice of data until the position.
-            &data[1 .. position + 1]
+            // Take a slice of the string bytes until the position.
+            &bytes[.. position]
         )
         // If the data cannot be converted into a UTF-8 string, return an error
             .map_err(|e| PacketBad.context(e))?
@@ -413,8 +419,8 @@ impl StringDecoder for Utf8LengthPrefixedDecoder {
             .to_owned();
 
         // Update the cursor position
-        // The +1 is to skip t length
-        *cursor += position + 1;
+        // Consume the length byte and the whole declared string
+        *cursor += end;
 
         Ok(result)
     }
